@@ -14,6 +14,12 @@
 // (tick(I), sched) to every enumerated history, so that what the NEXT scheduled execution does after the
 // enumerated events is always observed; the oracle is evaluated before and after the probe.
 //
+// Concurrency dimension (conc.go, run first): the real CQScheduler runs with its own goroutines under the
+// cooperative scheduler shim/vsched (cq_scheduler.go rewritten by overlay, virtual tickers and timers); one
+// execution of a history is parked at a gate (window chosen / query done) while update, manual execute, restart,
+// delete+recreate, reload-all and clock ticks happen, then released; oracle = the tiling oracle over the
+// execution log + "at most one execution of a continuous query is in flight" + the rows oracle.
+//
 // Oracle (the property, nothing more). The in-band chain = completed scheduled executions and completed
 // manual executions WITHOUT explicit bounds (the request that does what a scheduler tick does):
 //   - overlap: a successful scheduled window overlaps no earlier window of the chain;
@@ -63,6 +69,7 @@ import (
 	"github.com/gofiber/fiber/v2"
 	_ "github.com/mattn/go-sqlite3"
 	"github.com/rs/zerolog"
+	"github.com/valyala/fasthttp"
 )
 
 const (
@@ -91,7 +98,7 @@ const (
 	eManualDry
 	eRestart
 	eUpdate
-	nCore // the core alphabet ends here; the events below are the other manual-execution request shapes
+	nCore     // the core alphabet ends here; the events below are the other manual-execution request shapes
 	eStartPre = iota - 1
 	eStartL
 	eStartMid
@@ -185,13 +192,19 @@ type cqDef struct {
 	interval string
 	query    string
 	cols     []string // aggregate columns produced besides host and time
+	empty    bool     // matches no source row: every execution completes with 0 records (concurrency pass only)
 }
 
 var defs = []cqDef{
 	{"1m", "SELECT host, count(*) AS n, CAST(sum(v) AS BIGINT) AS s, min(v) AS lo, max(v) AS hi FROM db.src WHERE time >= {start_time} AND time < {end_time} GROUP BY host",
-		[]string{"n", "s", "lo", "hi"}},
+		[]string{"n", "s", "lo", "hi"}, false},
 	{"2m", "SELECT CAST({start_time} AS TIMESTAMP) AS time, host, count(*) AS n, max(v) AS hi FROM db.src WHERE time >= {start_time} AND time < {end_time} GROUP BY host",
-		[]string{"n", "hi"}},
+		[]string{"n", "hi"}, false},
+	// the two definitions of the "no-rows" family of the concurrency pass (conc.go): same shape, no matching host
+	{"1m", "SELECT host, count(*) AS n, CAST(sum(v) AS BIGINT) AS s, min(v) AS lo, max(v) AS hi FROM db.src WHERE time >= {start_time} AND time < {end_time} AND host = 'nobody' GROUP BY host",
+		[]string{"n", "s", "lo", "hi"}, true},
+	{"2m", "SELECT CAST({start_time} AS TIMESTAMP) AS time, host, count(*) AS n, max(v) AS hi FROM db.src WHERE time >= {start_time} AND time < {end_time} AND host = 'nobody' GROUP BY host",
+		[]string{"n", "hi"}, true},
 }
 
 // ---- seeded source rows ---------------------------------------------------------------------
@@ -221,6 +234,9 @@ func seedRows(maxDepth int) []srcRow {
 
 // expectRows: the independent aggregation for definition d over [s, e), labelled with s.
 func expectRows(rows []srcRow, d int, s, e time.Time) []hx.Row {
+	if defs[d].empty {
+		return nil
+	}
 	type agg struct{ n, sum, lo, hi int64 }
 	m := map[string]*agg{}
 	for _, r := range rows {
@@ -280,14 +296,15 @@ func (f *faultBackend) WriteReader(ctx context.Context, path string, r io.Reader
 // ---- worker: one DuckDB, one licence, source template files ----------------------------------
 
 type worker struct {
-	root   string
-	duck   *database.DuckDB
-	lic    *license.Client
-	rows   []srcRow
-	tmpl   map[string][]byte // relative path -> parquet bytes of the seeded source measurement
-	nSeq   int
-	states map[[8]byte]struct{}
-	nTrans int64
+	root     string
+	duck     *database.DuckDB
+	lic      *license.Client
+	rows     []srcRow
+	tmpl     map[string][]byte // relative path -> parquet bytes of the seeded source measurement
+	nSeq     int
+	states   map[[8]byte]struct{}
+	nTrans   int64
+	concKeys map[string]struct{} // distinct outcomes of the concurrency pass (conc.go)
 }
 
 func must(err error, what string) {
@@ -311,7 +328,7 @@ func newWorker(root string, maxDepth int) *worker {
 	var db *database.DuckDB
 	var err error
 	for attempt := 0; attempt < 6; attempt++ {
-		db, err = database.New(&database.Config{MaxConnections: 2, MemoryLimit: "512MB", ThreadCount: 1,
+		db, err = database.New(&database.Config{MaxConnections: 4, MemoryLimit: "512MB", ThreadCount: 1,
 			TempDirectory: filepath.Join(root, "tmp", "spill"), UploadDir: filepath.Join(root, "tmp", "upload"), LocalStorageRoot: root}, zerolog.Nop())
 		if err == nil {
 			break
@@ -378,11 +395,18 @@ type sys struct {
 	cqID   int64
 	def    int
 	lastID int64
+	// concurrency pass only (conc.go): requests are served synchronously on the caller's goroutine (a
+	// controlled thread) and the handler logs into the in-flight recorder
+	conc    *concRun
+	handler fasthttp.RequestHandler
+	defBase int // the two definitions in use are defs[defBase], defs[defBase+1]
 }
 
-func (w *worker) newSys() *sys {
+func (w *worker) newSys() *sys { return w.newSysOpt(nil) }
+
+func (w *worker) newSysOpt(conc *concRun) *sys {
 	w.nSeq++
-	s := &sys{w: w, dir: filepath.Join(w.root, fmt.Sprintf("h%07d", w.nSeq))}
+	s := &sys{w: w, dir: filepath.Join(w.root, fmt.Sprintf("h%07d", w.nSeq)), conc: conc}
 	s.store = filepath.Join(s.dir, "store")
 	for rel, b := range w.tmpl {
 		p := filepath.Join(s.store, rel)
@@ -398,7 +422,11 @@ func (w *worker) newSys() *sys {
 	must(err, "open observer")
 	s.obs.SetMaxOpenConns(1)
 	// create the continuous query through the real API
-	d := defs[0]
+	if conc != nil {
+		s.defBase = conc.g.defBase()
+		s.def = s.defBase
+	}
+	d := defs[s.def]
 	body, _ := json.Marshal(map[string]any{"name": "cq1", "database": dbName, "source_measurement": srcM, "destination_measurement": dstM,
 		"query": d.query, "interval": d.interval, "tag_columns": []string{"host"}, "is_active": true})
 	code, resp := s.call("POST", cqPath+"/", body)
@@ -418,7 +446,11 @@ func (w *worker) newSys() *sys {
 func (s *sys) boot() {
 	var err error
 	s.buf = ingest.NewArrowBuffer(ingestCfg(), s.fb, zerolog.Nop())
-	s.h, err = api.NewContinuousQueryHandler(s.w.duck, s.local, s.buf, &config.ContinuousQueryConfig{Enabled: true, DBPath: filepath.Join(s.dir, "meta.db")}, nil, zerolog.Nop())
+	hlog := zerolog.Nop()
+	if s.conc != nil {
+		hlog = zerolog.New(s.conc).Level(zerolog.InfoLevel)
+	}
+	s.h, err = api.NewContinuousQueryHandler(s.w.duck, s.local, s.buf, &config.ContinuousQueryConfig{Enabled: true, DBPath: filepath.Join(s.dir, "meta.db")}, nil, hlog)
 	must(err, "NewContinuousQueryHandler")
 	s.sch, err = scheduler.NewCQScheduler(&scheduler.CQSchedulerConfig{CQHandler: s.h, LicenseClient: s.w.lic, Logger: zerolog.Nop()})
 	must(err, "NewCQScheduler")
@@ -429,6 +461,9 @@ func (s *sys) boot() {
 	s.h.SetScheduler(s.sch)
 	s.app = fiber.New(fiber.Config{DisableStartupMessage: true})
 	s.h.RegisterRoutes(s.app)
+	if s.conc != nil {
+		s.handler = s.app.Handler()
+	}
 }
 
 func (s *sys) shutdown() {
@@ -444,6 +479,19 @@ func (s *sys) destroy() {
 }
 
 func (s *sys) call(method, path string, body []byte) (int, []byte) {
+	if s.conc != nil {
+		// app.Test serves the request on another goroutine; under the cooperative scheduler the handler has to
+		// run on the calling (controlled) thread
+		var req fasthttp.Request
+		req.Header.SetMethod(method)
+		req.SetRequestURI(path)
+		req.Header.SetContentType("application/json")
+		req.SetBody(body)
+		var fctx fasthttp.RequestCtx
+		fctx.Init(&req, nil, nil)
+		s.handler(&fctx)
+		return fctx.Response.StatusCode(), append([]byte{}, fctx.Response.Body()...)
+	}
 	req := httptest.NewRequest(method, path, bytes.NewReader(body))
 	req.Header.Set("Content-Type", "application/json")
 	resp, err := s.app.Test(req, -1)
@@ -700,12 +748,15 @@ func (w *worker) runSeq1(seq []int, frac time.Duration, checkAt int) *outcome {
 		}
 		w.nTrans++
 		switch e {
+		// the scheduler's tickers are virtual too (time rewrite of cq_scheduler.go, needed by the concurrency
+		// pass): in the sequential passes the clock JUMPS, so that no ticker fires and a scheduled execution
+		// is exactly the synchronous VerifFire below
 		case eTickHalf:
-			vclock.Advance(ivl / 2)
+			vclock.Jump(ivl / 2)
 		case eTick:
-			vclock.Advance(ivl)
+			vclock.Jump(ivl)
 		case eTick3:
-			vclock.Advance(3 * ivl)
+			vclock.Jump(3 * ivl)
 		case eSched, eSchedRead, eSchedWrite:
 			lp := s.lastProcessed()
 			srcDir := filepath.Join(s.store, dbName, srcM)
@@ -765,7 +816,6 @@ func (w *worker) runSeq1(seq []int, frac time.Duration, checkAt int) *outcome {
 	judge()
 	return o
 }
-
 
 func sansTime(r hx.Row) string {
 	c := hx.Row{}
@@ -1062,7 +1112,19 @@ func runShard(run *ev.Run, idx, total int) {
 	samples, samplesBad := ev.NewSamples(1), ev.NewSamples(1)
 	counters := map[string]int64{}
 	complete := true
-	for _, p := range passes(run.Quick()) {
+	only := os.Getenv("VERIF_C29_ONLY") // development aid: "seq" or "conc"
+	ps := passes(run.Quick())
+	if only == "conc" {
+		ps = nil
+	}
+	// the concurrency dimension first (conc.go): it is the smaller part, and its short cases come first
+	if only != "seq" {
+		complete = w.concShard(run, idx, total, counters)
+	}
+	for _, p := range ps {
+		if !complete {
+			break
+		}
 		var k int64
 		p.gen(func(hist []int) bool {
 			k++
@@ -1173,11 +1235,23 @@ func replay(run *ev.Run) {
 	must(err, "replay file")
 	var r struct {
 		Replay struct {
-			Events []string `json:"events"`
-			Frac   string   `json:"clock_fraction"`
+			Events     []string `json:"events"`
+			Frac       string   `json:"clock_fraction"`
+			ConcGate   int      `json:"conc_gate"`
+			ConcPoint  string   `json:"conc_point"`
+			ConcEvents []string `json:"conc_events"`
+			ConcNoRows bool     `json:"conc_no_rows"`
 		} `json:"replay"`
 	}
 	must(json.Unmarshal(b, &r), "replay json")
+	if len(r.Replay.ConcEvents) > 0 {
+		root := fmt.Sprintf("/dev/shm/verif.c29.%d", os.Getpid())
+		w := newWorker(root, 5)
+		rc := replayConc(w, r.Replay.ConcGate, r.Replay.ConcPoint, r.Replay.ConcNoRows, r.Replay.ConcEvents)
+		w.duck.Close()
+		os.RemoveAll(root)
+		os.Exit(rc)
+	}
 	var seq []int
 	for _, n := range r.Replay.Events {
 		found := false
@@ -1240,8 +1314,15 @@ func main() {
 			states[l] = struct{}{}
 		}
 	}
+	only := os.Getenv("VERIF_C29_ONLY")
+	if only != "seq" {
+		concCoverage(run, root, shards, counters, complete)
+	}
 	os.RemoveAll(root)
 	ps := passes(run.Quick())
+	if only == "conc" {
+		ps = nil
+	}
 	var want int64
 	wantBy := map[string]int64{}
 	for _, p := range ps {
@@ -1253,13 +1334,13 @@ func main() {
 	}
 	fmt.Printf("histories=%d (of %d) transitions=%d distinct observable states=%d completed executions=%d failed=%d destination rows compared=%d violating histories=%d\n",
 		counters["histories"], want, counters["transitions"], len(states), counters["executions_completed"], counters["executions_failed"], counters["destination_rows_checked"], counters["histories_violating"])
-	if counters["histories_with_2+_completed_windows"] < 100 || len(states) < 100 {
+	if only != "conc" && (counters["histories_with_2+_completed_windows"] < 100 || len(states) < 100) {
 		ev.Unbound("vacuous exploration: almost no history produced two completed windows")
 	}
 	if len(samples) == 0 {
 		samples = []any{map[string]any{"note": "no clean history with 3 completed and 1 failed execution in this run"}}
 	}
-	run.Coverage["exhaustive"] = complete && os.Getenv("VERIF_C29_DEPTH") == ""
+	run.Coverage["exhaustive"] = complete && os.Getenv("VERIF_C29_DEPTH") == "" && only == "" && os.Getenv("VERIF_C29_BOUND") == "" && run.Coverage["conc_exhaustive"] == true
 	run.Coverage["states"] = len(states)
 	run.Coverage["transitions"] = counters["transitions"]
 	run.Coverage["traces_validated_against_impl"] = counters["histories"]
@@ -1291,6 +1372,8 @@ func main() {
 	run.Assume("the ArrowBuffer is flushed explicitly after every execution event (stands for the 5 s age flush, far shorter than the 10 s minimum CQ interval); during sched@dest-write-fails the execution and that flush both see storage.Write fail (if the execution still completes because the write is asynchronous, its output rows are neither demanded nor forbidden: buffered-row durability is C07's subject); sched@source-unreadable takes the source measurement directory offline for the execution")
 	run.Assume("restart is graceful (scheduler.Stop, ArrowBuffer.Close, handler.Close, then new objects over the same SQLite file and store); no WAL is attached to the ArrowBuffer")
 	run.Assume("what a manual execution must do: without explicit bounds it is in-band (it does what a scheduler tick does, so the next scheduled window starts at its end); with an explicit start_time and/or end_time nothing is prescribed for last_processed_time beyond the tiling itself — the next scheduled window must start where the previous in-band window ended unless completed executions in between cover the time between contiguously (so leaving last_processed_time alone, or advancing it over a slice the execution really processed, are both accepted; jumping over an unprocessed slice or back over a processed one is not). Explicit bounds in the future are not enumerated; a rejected (HTTP 400), failed or dry-run request must leave last_processed_time and the execution log's completed set alone")
+	run.Assume("concurrency pass: sync/go/channel/clock operations of internal/scheduler/cq_scheduler.go are operations of shim/vsched (one thread at a time, virtual tickers and timers fired by the harness's clock events); each case is ONE deterministic schedule: every event on its own thread, the next event starts when all older threads have ended or are blocked, a blocked glue call stays in the background and the clock moves +30 s once; the parked execution is held inside the handler's own log call (\"Executing [scheduled] continuous query\" = window chosen, \"Aggregation query returned records\" = query done) and the same log lines delimit 'in flight'; other interleavings (a thread preempted between two synchronisation operations of the scheduler) are not enumerated")
+	run.Assume("concurrency pass: restart = process restart: a parked MANUAL execution (an HTTP request) is released and awaited before the shutdown sequence (the server drains requests first); a parked scheduled execution is what CQScheduler.Stop has to wait for; request events (update, manual, delete+recreate, reload-all, restart) that arrive while a restart is in progress wait for the new process, clock ticks do not. delete+recreate gives the continuous query a new id: chains, cursor and the in-flight rule are per id. The /no-rows family uses definitions that match no source row (executions complete with 0 records and never reach the ArrowBuffer, so the stop signal's context cancellation cannot fail them)")
 	run.Assume("manual(range) is a backfill of [base-90m, base-75m), older than any default window; interval I = 1m (the scheduler's real ticker never fires); tag_columns=[host]; two definitions (implicit label / explicit CAST({start_time} AS TIMESTAMP) AS time)")
 	run.Finish()
 }
